@@ -20,6 +20,7 @@ import YashModel.Input.ChunkLemmas
 import YashModel.Input.SpecEq
 import YashModel.Input.Logical
 import YashModel.Input.Compose
+import YashModel.Input.RedirInv
 import YashModel.Expansion.ReadLemmas
 import YashModel.Generated.InputConsts
 namespace YashModel.Input
@@ -984,5 +985,92 @@ theorem model_constants_are_the_codes :
       split <;> simp
     | a :: b :: c :: e :: f :: rest, _ => simp [utf8Check]
 end
+
+
+/-! ### Redirections of standard input: when the command is over, descriptor 0 is what it was -/
+
+/-- ★ `RedirGuard::perform_redirs` followed by `undo_redirs`, for **every** list of redirections of
+    standard input (here-documents, files, any number, also when one of them cannot be opened and the
+    list is abandoned half-way): the state is exactly the state before — descriptor 0 refers to the same
+    open file description at the same offset.  The proof needs the order of `undo_redirs`: the
+    description saved **first** must be the one copied back **last** (`undoIn_head`). -/
+theorem redirs_undone_exactly (rs : List Rd) (s : State) :
+    undoIn (performIn rs [] s).1 (performIn rs [] s).2.1 = s := undo_perform rs s
+
+/-- the order is not a detail: with two redirections, copying the saved descriptions back in the order
+    they were saved leaves descriptor 0 on the **first target** (the first here-document, unread) —
+    a stdin-fed shell would go on reading its commands from there -/
+theorem undo_order_matters :
+    (undoIn (performIn [.here ['a', '\n'], .here ['b', '\n']] [] (initState true [112, 10] [])).1
+            (performIn [.here ['a', '\n'], .here ['b', '\n']] [] (initState true [112, 10] [])).2.1).shared = true
+    ∧ ((performIn [.here ['a', '\n'], .here ['b', '\n']] [] (initState true [112, 10] [])).1.foldl setDesc
+            (performIn [.here ['a', '\n'], .here ['b', '\n']] [] (initState true [112, 10] [])).2.1).shared = false
+    ∧ ((performIn [.here ['a', '\n'], .here ['b', '\n']] [] (initState true [112, 10] [])).1.foldl setDesc
+            (performIn [.here ['a', '\n'], .here ['b', '\n']] [] (initState true [112, 10] [])).2.1).data = [97, 10] := by
+  refine ⟨?_, ?_, ?_⟩ <;> decide
+
+/-- ★ **whatever the commands of a command line do — redirect standard input any number of times, on
+    simple and compound commands, nested, in subshells, abandon a construct because `eval`/`.` met a
+    syntax error — when they are over, standard input is the open file description it was before**,
+    only read from: the same kind (`shared`: the script descriptor stays the script descriptor); for a
+    stream of its own, what is left is a suffix of what was there and the offset advanced by exactly
+    what was consumed.  (The general form for any continuation is `runK_outer`.) -/
+theorem stdin_restored_after_command (n : Nat) (cs : List Cmd) (s : State)
+    (hfin : (runK n (cmds cs) s).2 = true) :
+    Adv (stdinDesc s) (stdinDesc (runK n (cmds cs) s).1) := runK_cmds_adv n cs s hfin
+
+example : (runK 10 (cmds [.redir [.here ['a', '\n'], .file ['/', 'r', '1']] (.simple [] none)])
+    (initState true [112, 10] [])).2 = true := by decide
+
+/-- ★ a shell reading its commands from standard input (`sh -s`: file or pipe): after any number of
+    command lines — whatever their redirections — **descriptor 0 is the script descriptor**; the next
+    command line is read from the script, never from a here-document or a file a command was
+    redirected to.  The same for the machine over a chunked source.  And for `sh -c` / `sh file`: what is
+    left on the separate standard input is a suffix of the data, the offset = what was consumed. -/
+theorem run_stdin_is_the_script (script data : List Byte) :
+    ((run true script data).2.1 ≠ .outOfFuel → (run true script data).1.shared = true)
+    ∧ (∀ cs : List (List Byte), (runC cs).2.1 ≠ .outOfFuel → (runC cs).1.st.shared = true)
+    ∧ ((run false script data).2.1 ≠ .outOfFuel →
+        (run false script data).1.shared = false
+        ∧ ∃ pre, data = pre ++ (run false script data).1.data ∧ (run false script data).1.pos = pre.length)
+    ∧ ((runFile script data).2.1 ≠ .outOfFuel →
+        ∃ pre, data = pre ++ (runFile script data).1.data ∧ (runFile script data).1.pos = pre.length) := by
+  refine ⟨?_, ?_, ?_, ?_⟩
+  · intro h
+    exact (loop_stdin _ _ _ h).1
+  · intro cs h
+    have hc := (run_chunking_irrelevant cs cs).1
+    have h1 : (runC cs).1.flat = (run true cs.flatten []).1 := hc.1
+    have h2 : (runC cs).2.1 = (run true cs.flatten []).2.1 := hc.2.1
+    rw [h2] at h
+    have := (loop_stdin _ _ _ h).1
+    have e : (runC cs).1.st.shared = (runC cs).1.flat.shared := rfl
+    rw [e, h1]; exact this
+  · intro h
+    obtain ⟨h1, pre, h2, h3⟩ := loop_stdin _ _ _ h
+    refine ⟨h1, pre, h2, ?_⟩
+    have := h3 rfl
+    simpa [run, initState, stdinDesc] using this
+  · intro h
+    obtain ⟨_, pre, h2, h3⟩ := loop_stdin _ _ _ h
+    refine ⟨pre, h2, ?_⟩
+    have := h3 rfl
+    simpa [runFile, initStateFile, stdinDesc] using this
+
+
+
+/-- the order in which `RedirGuard::undo_redirs` walks `saved_fds` is re-read from the code on every run
+    (`Generated.InputConsts.UNDO_REVERSED`, tools/tables/input.py): it is the order of the model's
+    `undoIn`, and the status after a redirection that cannot be performed is `ExitStatus::ERROR` -/
+theorem undo_order_is_the_codes :
+    Generated.InputConsts.UNDO_REVERSED = true
+    ∧ (∀ (saved : List SavedIn) (s : State),
+        undoIn saved s
+          = (if Generated.InputConsts.UNDO_REVERSED then saved.reverse else saved).foldl setDesc s)
+    ∧ (∀ (rs : List Rd) (c : Cmd) (k : List K) (s : State), (performIn rs [] s).2.2 = false →
+        (step (.cmd (.redir rs c) :: k) s).map (·.2.status) = some Generated.InputConsts.SYNTAX_ERROR) := by
+  refine ⟨rfl, fun _ _ => rfl, ?_⟩
+  intro rs c k s h
+  simp [step, h, Generated.InputConsts.SYNTAX_ERROR]
 
 end YashModel.Input
